@@ -20,7 +20,7 @@ TEXTS = [t for t in pools.TEXTS if '#.' not in t and '\r' not in t and '\x00' no
          '# meta: not a header\n', 'see # change: below\nmore\n', '#xmeta: y\n#  file: z\n', 'a #1diff: b\n', '#-preamble:\n',
          '# diffx: 1\n', 'text #\tmeta:\n']
 METAS = [m for m in pools.METAS if '#.' not in repr(m)]
-DIFFS = [b'x\n...\ny\n', b'# HG changeset patch\n--- a\n+++ b\n', b'--- a\n+++ b\n@@ -1 +1 @@\n-a\n+b\n', b'x\n', b'Binary files differ\n', b'@@ -1,2 +1,2 @@\n a\n-b\n+c\n', b'delta 12\n',
+DIFFS = [b'x\n...\ny\n', b'# HG changeset patch\n--- a\n+++ b\n', b'--- a\n+++ b\n@@ -1 +1 @@\n-a\n+b\n', b'x\n', b'Binary files differ\n', b'@@ -1,2 +1,2 @@\n a\n-b\n+c\n', b'delta 12\n', b'delta 12\r\nzABC\r\n', b'literal 5\r\nzcmV\r\n',
          b'--- a\n+++ b\n@@ -1 +1 @@\n-# meta: old\n+# change: new\n', b'# a diff: see below\n--- a\n+++ b\n']
 
 
